@@ -2,23 +2,47 @@
   C17 — samplers respect their distribution contract and are reproducible from a seed.
 
   Every theorem is about the executable model `Lattigo/Model/Sampler*.lean` (the functions the
-  driver runs and the harness ties, limb for limb and byte for byte, to /repo/ring/sampler*.go),
-  for ALL byte streams, rings, levels and fuels.  A sampler call is a pure function
+  driver runs and the harness ties, limb for limb and byte for byte, to /repo/ring/sampler*.go,
+  /repo/ring/ringqp/samplers.go, /repo/utils/sampling/prng.go), for ALL byte streams, rings, levels
+  and fuels.  A sampler call is a pure function
   `(PRNG bytes, buffer state, polynomial) ↦ Res (polynomial, PRNG bytes left, buffer state)`;
-  `Res.exhausted` (PRNG ran dry) and `Res.panic` are terminal, so every statement is of the form
-  "if the call returns `ok …` then …".
+  `Res.exhausted` (PRNG ran dry) and `Res.panic` are terminal, so every statement has the form
+  "if the call returns `ok …` then …".  The model follows /repo HEAD (fixes ece109d, 92bf5e8,
+  C17-2 … C17-7 applied; C17-1 not applied: known finding C17/ternary-ky-sign-bit-reused).
 
-  Model follows /repo HEAD, i.e. WITH the fixes C17-2 … C17-6 (and ece109d, 92bf5e8) and WITHOUT
-  C17-1: the Knuth–Yao sign-bit reuse is a known finding, stated here as `ky_sign_bit_reused`.
-
-  Not theorems (measured by the harness as LABELLED TESTS): empirical mean / standard deviation /
-  density / sign balance.  Out of scope: "distinct keys give unrelated streams" is a property of
-  the BLAKE2b XOF; the model treats the PRNG as an arbitrary byte stream.
+  PROVED FOR ALL INPUTS (no hypothesis beyond well-formedness: rows of length N, 2 ≤ q_i < 2^64)
+   · support / one integer across moduli: `uniform_range`, `uniform_range_readAndAdd`,
+     `rns_consistent_ternary`, `sparse_weight` (+ `_rows`), `rns_consistent_gauss`,
+     `gauss_limbs_reduced`, `gauss_bound_big`;
+   · every level: `level_view_ternary`, `level_view_sparse`, `level_view_gauss`,
+     `atLevel_rows_agree` (a view gets the first limbs of the SAME signed integers);
+   · exact laws where the code is a table: `ternary_half_exact` (P = 0.5: 1/2, 1/4, 1/4 from
+     disjoint bits), `sparse_signs_are_stream_bits` (sign of the t-th selected coefficient = t-th
+     sign bit, for every H), `accept_fibre_card` (rejection under the mask is uniform: counting);
+   · Montgomery / ReadAndAdd: `mont_eq_mform_plain_{ternary,sparse,gauss}`,
+     `readAndAdd_eq_add_read_{uniform,ternary,sparse,gauss}`, `readAndAdd_gauss_mont`;
+   · buffers and interleavings: `uniform_consumes` (buffered = unbuffered word-stream spec, from
+     every invariant state), `interleaving` (invariant after any call sequence on any views of any
+     samplers), `gauss_no_stale_bytes`;
+   · reproducibility: `determinism` (by construction), `prng_key_replays`,
+     `prng_reads_are_one_stream` (PRNG state = (key, position), arbitrary XOF).
+  NEGATION WITH WITNESS: `ky_sign_bit_reused` (adjacent coefficients of Ternary{P ≠ 0.5} depend).
+  TIED ONLY (model = code on the explored inputs, no general theorem needed beyond the above): the
+   float64 arithmetic of SamplerFloat.lean vs the hardware (`fmul` … ops; `rne53_mono` is proved),
+   `computeMatrixTernary` (`matrix`), constructor decision table (`ctor`), `RandUniform`, `RandInt`,
+   ringqp sessions (`qp`), the ziggurat tables (`tables`).
+  NOT THEOREMS: empirical mean / standard deviation / density / sign balance (LABELLED TESTS of
+   the harness); the exact output law of the Knuth–Yao walk for P ≠ 0.5 (a statement about a
+   measure on infinite bit sequences; the walk itself is tied bit for bit, its support is proved and
+   its one structural defect is `ky_sign_bit_reused`); the `math.Log` / `math.Exp` branches of the
+   ziggurat are an oracle (every theorem holds for every oracle; such lines are `inconclusive`).
+  OUT OF SCOPE: "distinct keys give unrelated streams" is a property of the BLAKE2b XOF.
 -/
 import Lattigo.Proofs.SamplerSession
 import Lattigo.Proofs.SamplerCount
 import Lattigo.Proofs.SamplerKY
 import Lattigo.Proofs.SamplerPRNG
+import Lattigo.Proofs.SamplerLevels
 namespace Lattigo.C17
 open Lattigo Lattigo.Gen Lattigo.Sampler
 
@@ -427,6 +451,252 @@ example : PRNG.run (fun k i => i + k.getD 0 0) (PRNG.new [7, 9])
       [.read 2, .read 0, .key, .read 3, .rekey, .read 4, .reset, .read 1] =
     [[7, 8], [], [7, 9], [9, 10, 11], [], [7, 8, 9, 10], [], [7]] := by decide
 
+/-! ## 7. Level views see ONE integer vector; exact per-coefficient laws -/
+
+/-- if two polynomials carry the residues of the same integer vector, a view on a prefix of the
+    chain (`AtLevel(l)`: `qs.take (l+1)`) has exactly the first limbs of the full sample -/
+theorem atLevel_rows_agree (x : List Int) (qs : List Nat) (k : Nat) (r r2 : Poly)
+    (h1 : ∀ i, i < qs.length → r[i]? = some (x.map (resOf (qs.getD i 0))))
+    (h2 : ∀ i, i < (qs.take k).length → r2[i]? = some (x.map (resOf ((qs.take k).getD i 0)))) :
+    ∀ i, i < min k qs.length → r2[i]? = r[i]? := by
+  intro i hi
+  have hik : i < (qs.take k).length := by rw [List.length_take]; exact hi
+  rw [h1 i (by omega), h2 i hik]
+  have : (qs.take k).getD i 0 = qs.getD i 0 := by
+    rw [List.getD_eq_getElem?_getD, List.getD_eq_getElem?_getD, List.getElem?_take_of_lt (by omega)]
+  rw [this]
+
+/-- **level_view_ternary (density).**  Two `Read`s from the same PRNG state on ANY two views
+    (moduli `qs` and `qs₂`, e.g. `qs₂ = qs.take (l+1)`): the SAME integer vector `x ∈ {−1,0,1}^N`
+    is reduced modulo each view's moduli, and the same bytes are consumed. -/
+theorem level_view_ternary (fuel p N : Nat) (qs qs₂ : List Nat) (pol pol₂ r r₂ : Poly) (s s' s₂ : Bytes)
+    (hq : ∀ q ∈ qs, 2 ≤ q ∧ q < W) (hq₂ : ∀ q ∈ qs₂, 2 ≤ q ∧ q < W)
+    (hrows : ∀ row ∈ pol, row.length = N) (hrows₂ : ∀ row ∈ pol₂, row.length = N)
+    (h : ternProba fuel .read false p N qs pol s = .ok (r, s'))
+    (h₂ : ternProba fuel .read false p N qs₂ pol₂ s = .ok (r₂, s₂)) :
+    s₂ = s' ∧ ∃ x : List Int, x.length = N ∧ (∀ v ∈ x, v = -1 ∨ v = 0 ∨ v = 1) ∧
+      (∀ i, i < qs.length → r[i]? = some (x.map (resOf (qs.getD i 0)))) ∧
+      (∀ i, i < qs₂.length → r₂[i]? = some (x.map (resOf (qs₂.getD i 0)))) := by
+  obtain ⟨idx, h1, h2⟩ := ternProba_ok h
+  obtain ⟨idx₂, h1', h2'⟩ := ternProba_ok h₂
+  rw [h1] at h1'
+  simp only [Res.ok.injEq, Prod.mk.injEq] at h1'
+  obtain ⟨e1, e2⟩ := h1'
+  subst e1; subst e2
+  obtain ⟨hlen, hidx⟩ := probaIdx_ok rfl h1
+  refine ⟨rfl, idx.map ternVal, by simp [hlen], ?_,
+    ternApply_read_plain qs pol r idx N hq hrows hlen hidx h2,
+    ternApply_read_plain qs₂ pol₂ r₂ idx N hq₂ hrows₂ hlen hidx h2'⟩
+  intro v hv
+  obtain ⟨ix, _, rfl⟩ := List.mem_map.mp hv
+  exact ternVal_support ix
+
+/-- non-vacuity of `level_view_ternary` / `atLevel_rows_agree`: the same bytes read by a two-modulus
+    view and by its level-0 view -/
+example :
+    ternProba 10 .read false SF.half 8 [5, 7] [List.replicate 8 9, List.replicate 8 9] [0x0f, 0x05] =
+      .ok ([[4, 1, 4, 1, 0, 0, 0, 0], [6, 1, 6, 1, 0, 0, 0, 0]], []) ∧
+    ternProba 10 .read false SF.half 8 ([5, 7].take 1) [List.replicate 8 9] [0x0f, 0x05] =
+      .ok ([[4, 1, 4, 1, 0, 0, 0, 0]], []) := by decide +kernel
+
+/-- the plain rows written by the fixed-weight sampler from a given selection -/
+theorem sparse_rows (N : Nat) (qs : List Nat) (pol r : Poly) (sel : List (Nat × Nat)) (rest : List Nat)
+    (hq : ∀ q ∈ qs, 2 ≤ q ∧ q < W) (hrows : ∀ row ∈ pol, row.length = N)
+    (hperm : (sel.map Prod.fst ++ rest).Perm (List.range N)) (hbits : ∀ pc ∈ sel, pc.2 ≤ 1)
+    (hm : mapRowsLvl (fun q row => sparseRow .read (ternLut false q) q sel rest row) qs pol = .ok r) :
+    ∀ i, i < qs.length → r[i]? = some ((sparseVec N sel rest).map (resOf (qs.getD i 0))) := by
+  intro i hi
+  obtain ⟨_, hle, hlow, _⟩ := mapRowsLvl_ok _ qs pol r hm
+  rw [hlow i hi]
+  have hip : i < pol.length := by omega
+  rw [List.getElem?_eq_getElem hip]
+  simp only [Option.map_some]
+  have hqi := hq (qs.getD i 0) (by rw [getD_of_lt _ _ hi]; exact List.getElem_mem hi)
+  exact congrArg some (sparseRow_read_plain _ hqi.1 hqi.2 _ hperm (hrows _ (List.getElem_mem hip)) hbits)
+
+/-- **level_view_sparse (fixed weight).**  Same statement for `Ternary{H}`, with the weight. -/
+theorem level_view_sparse (fuel hw N : Nat) (qs qs₂ : List Nat) (pol pol₂ r r₂ : Poly) (s s' s₂ : Bytes)
+    (hq : ∀ q ∈ qs, 2 ≤ q ∧ q < W) (hq₂ : ∀ q ∈ qs₂, 2 ≤ q ∧ q < W)
+    (hrows : ∀ row ∈ pol, row.length = N) (hrows₂ : ∀ row ∈ pol₂, row.length = N)
+    (h : ternSparse fuel .read false hw N qs pol s = .ok (r, s'))
+    (h₂ : ternSparse fuel .read false hw N qs₂ pol₂ s = .ok (r₂, s₂)) :
+    s₂ = s' ∧ ∃ x : List Int, x.length = N ∧ (∀ v ∈ x, v = -1 ∨ v = 0 ∨ v = 1) ∧
+      x.countP (fun v => v ≠ 0) = min hw N ∧
+      (∀ i, i < qs.length → r[i]? = some (x.map (resOf (qs.getD i 0)))) ∧
+      (∀ i, i < qs₂.length → r₂[i]? = some (x.map (resOf (qs₂.getD i 0)))) := by
+  obtain ⟨rbs, s1, sel, rest, h1, h2, hlen, hperm, hbits, hm⟩ := ternSparse_ok h
+  obtain ⟨rbs', s1', sel', rest', h1', h2', _, _, _, hm'⟩ := ternSparse_ok h₂
+  rw [h1] at h1'
+  simp only [Res.ok.injEq, Prod.mk.injEq] at h1'
+  obtain ⟨e1, e2⟩ := h1'
+  subst e1; subst e2
+  rw [h2] at h2'
+  simp only [Res.ok.injEq, Prod.mk.injEq] at h2'
+  obtain ⟨e1, e2, e3⟩ := h2'
+  subst e1; subst e2; subst e3
+  refine ⟨rfl, sparseVec N sel rest, by simp [sparseVec], fun v hv => sparseVec_support v hv, ?_,
+    sparse_rows N qs pol r sel rest hq hrows hperm hbits hm,
+    sparse_rows N qs₂ pol₂ r₂ sel rest hq₂ hrows₂ hperm hbits hm'⟩
+  rw [sparseVec_weight hperm, hlen]
+  unfold clipHW
+  split <;> omega
+
+/-- **level_view_gauss.**  Two `Read`s of a Gaussian sampler from the same PRNG state and buffer on
+    any two views: one signed integer vector (`|x_k| ≤ round(bound)` on the small-norm path,
+    `|x_k| ≤ ⌊bound⌋` on the big-number path), reduced modulo each view's moduli; same bytes
+    consumed, same buffer state, same `slow` flag. -/
+theorem level_view_gauss (orc : Slow) (fuel sigma bound N : Nat) (qs qs₂ : List Nat) (pol pol₂ r r₂ : Poly)
+    (s s' s₂ : Bytes) (b b' b₂ : Buf) (slow slow₂ : Bool)
+    (hq : ∀ q ∈ qs, 0 < q ∧ q < W) (hq₂ : ∀ q ∈ qs₂, 0 < q ∧ q < W)
+    (hrows : ∀ row ∈ pol, row.length = N) (hrows₂ : ∀ row ∈ pol₂, row.length = N) (hb : BufInv b)
+    (h : gaussReadPlain orc fuel .read sigma bound N qs pol s b = .ok (r, slow, s', b'))
+    (h₂ : gaussReadPlain orc fuel .read sigma bound N qs₂ pol₂ s b = .ok (r₂, slow₂, s₂, b₂)) :
+    s₂ = s' ∧ b₂ = b' ∧ slow₂ = slow ∧ ∃ x : List Int, x.length = N ∧
+      (∀ v ∈ x, (v.natAbs : Int) ≤ (if isBigPath sigma bound then (SF.trunc bound : Int) else (roundBound bound : Int))) ∧
+      (∀ i, i < qs.length → r[i]? = some (x.map (resOf (qs.getD i 0)))) ∧
+      (∀ i, i < qs₂.length → r₂[i]? = some (x.map (resOf (qs₂.getD i 0)))) := by
+  cases hp : isBigPath sigma bound with
+  | true =>
+    obtain ⟨d, s1, xs, h1, h2, h3⟩ := gaussReadPlain_big_ok hp h
+    obtain ⟨d', s1', xs', h1', h2', h3'⟩ := gaussReadPlain_big_ok hp h₂
+    rw [h1] at h1'
+    simp only [Res.ok.injEq, Prod.mk.injEq] at h1'
+    obtain ⟨e1, e2⟩ := h1'
+    subst e1; subst e2
+    rw [h2] at h2'
+    simp only [Res.ok.injEq, Prod.mk.injEq] at h2'
+    obtain ⟨e1, e2, e3, e4⟩ := h2'
+    subst e1; subst e2; subst e3; subst e4
+    have hlen : xs.length = N := by
+      obtain ⟨_, _, _, _, hl⟩ := prngRead_ok h1
+      unfold gaussBig at h2
+      exact (gaussVec_ok (gaussCoeffBig orc sigma (SF.trunc bound) fuel) (fun _ => True)
+        (fun sl sl1 s s1 b b1 a hb h => ⟨(gaussCoeffBig_ok orc sigma _ fuel sl sl1 s s1 b b1 a hb h).1, trivial⟩)
+        N false _ _ _ _ _ xs (refillKeepPtr_inv hb hl) h2).2.1
+    have hall : ∀ x ∈ xs, (x.natAbs : Int) ≤ (SF.trunc bound : Int) := by
+      obtain ⟨_, _, _, _, hl⟩ := prngRead_ok h1
+      unfold gaussBig at h2
+      exact (gaussVec_ok (gaussCoeffBig orc sigma (SF.trunc bound) fuel)
+        (fun x => (x.natAbs : Int) ≤ (SF.trunc bound : Int))
+        (fun sl sl1 s s1 b b1 a hb h => gaussCoeffBig_ok orc sigma _ fuel sl sl1 s s1 b b1 a hb h)
+        N false _ _ _ _ _ xs (refillKeepPtr_inv hb hl) h2).2.2
+    refine ⟨rfl, rfl, rfl, xs, hlen, by simpa using hall, ?_, ?_⟩
+    · exact mapRowsLvl_read_rows (fun q x => gaussLimbBig q x) xs N qs pol r hrows hlen h3
+    · exact mapRowsLvl_read_rows (fun q x => gaussLimbBig q x) xs N qs₂ pol₂ r₂ hrows₂ hlen h3'
+  | false =>
+    obtain ⟨d, s1, cs, h1, h2, h3⟩ := gaussReadPlain_small_ok hp h
+    obtain ⟨d', s1', cs', h1', h2', h3'⟩ := gaussReadPlain_small_ok hp h₂
+    rw [h1] at h1'
+    simp only [Res.ok.injEq, Prod.mk.injEq] at h1'
+    obtain ⟨e1, e2⟩ := h1'
+    subst e1; subst e2
+    rw [h2] at h2'
+    simp only [Res.ok.injEq, Prod.mk.injEq] at h2'
+    obtain ⟨e1, e2, e3, e4⟩ := h2'
+    subst e1; subst e2; subst e3; subst e4
+    obtain ⟨_, _, _, _, hl⟩ := prngRead_ok h1
+    unfold gaussSmall at h2
+    obtain ⟨_, hlen, hall⟩ := gaussVec_ok (gaussCoeff orc sigma bound fuel)
+      (fun c => c.2 ≤ 1 ∧ c.1 ≤ roundBound bound ∧ c.1 < W)
+      (fun sl sl1 s s1 b b1 a hb h => gaussCoeff_ok orc sigma bound fuel sl sl1 s s1 b b1 a hb h)
+      N false _ _ _ _ _ cs (refillKeepPtr_inv hb hl) h2
+    have rowsOf : ∀ (qs : List Nat) (pol r : Poly), (∀ q ∈ qs, 0 < q ∧ q < W) →
+        (∀ row ∈ pol, row.length = N) →
+        mapRowsLvl (fun q row => List.zipWith (fun a c => Mode.read.f a (gaussLimb q c) q) row cs) qs pol = .ok r →
+        ∀ i, i < qs.length → r[i]? = some ((cs.map gaussVal).map (resOf (qs.getD i 0))) := by
+      intro qs pol r hq hrows hm i hi
+      have hqi := hq (qs.getD i 0) (by rw [getD_of_lt _ _ hi]; exact List.getElem_mem hi)
+      rw [mapRowsLvl_read_rows (fun q c => gaussLimb q c) cs N qs pol r hrows hlen hm i hi, List.map_map]
+      refine congrArg some (List.map_congr_left ?_)
+      intro c hc
+      exact gaussLimb_spec _ c hqi.1 hqi.2 (hall c hc).1
+    refine ⟨rfl, rfl, rfl, cs.map gaussVal, by simp [hlen], ?_, rowsOf qs pol r hq hrows h3,
+      rowsOf qs₂ pol₂ r₂ hq₂ hrows₂ h3'⟩
+    intro v hv
+    obtain ⟨c, hc, rfl⟩ := List.mem_map.mp hv
+    obtain ⟨_, hle, _⟩ := hall c hc
+    simp only [Bool.false_eq_true, if_false]
+    unfold gaussVal
+    split <;> (simp; exact_mod_cast hle)
+
+/-- non-vacuity of `level_view_gauss`: the bytes of the example above read by a two-modulus view -/
+example : gaussReadPlain ⟨fun _ _ => none, fun _ _ _ => false⟩ 10 .read
+      (SF.ofBits64 4614388178203810202) (SF.ofBits64 4625816062258262835) 2 [257, 769] [[9, 9], [9, 9]]
+      ([0, 0, 0, 0x20] ++ List.replicate 1020 0) Buf.new =
+    .ok ([[254, 0], [766, 0]], false, [], { data := [0, 0, 0, 0x20] ++ List.replicate 1020 0, ptr := 16 }) := by
+  set_option maxRecDepth 100000 in
+  set_option exponentiation.threshold 5000 in
+  decide +kernel
+
+/-- **gauss_no_stale_bytes.**  `read` refills the buffer first: the call is a function of the PRNG
+    bytes and of the buffer POINTER only, never of bytes left in the buffer by earlier calls. -/
+theorem gauss_no_stale_bytes (orc : Slow) (fuel : Nat) (m : Mode) (sigma bound N : Nat)
+    (qs : List Nat) (pol : Poly) (s : Bytes) (b₁ b₂ : Buf) (hptr : b₁.ptr = b₂.ptr) :
+    gaussReadPlain orc fuel m sigma bound N qs pol s b₁ =
+      gaussReadPlain orc fuel m sigma bound N qs pol s b₂ :=
+  gaussReadPlain_old_buffer_irrelevant orc fuel m sigma bound N qs pol s b₁ b₂ hptr
+
+/-- **sparse_signs_are_stream_bits.**  `Ternary{H}`, for every `H` (no wrap at 256 or anywhere):
+    the call first reads `⌈min(H,N)/8⌉` sign bytes; the `t`-th selected position `p_t` gets the sign
+    given by bit `t` (LSB first) of those bytes: `x[p_t] = +1` if the bit is 0, `−1` if it is 1;
+    the positions are pairwise distinct and there are `min(H, N)` of them. -/
+theorem sparse_signs_are_stream_bits (fuel hw N : Nat) (m : Mode) (mont : Bool) (qs : List Nat) (pol r : Poly)
+    (s s' : Bytes) (h : ternSparse fuel m mont hw N qs pol s = .ok (r, s')) :
+    ∃ (rbs s1 : Bytes) (sel : List (Nat × Nat)) (rest : List Nat),
+      prngRead s ((min hw N + 7) / 8) = .ok (rbs, s1) ∧ sel.length = min hw N ∧
+      (sel.map Prod.fst).Nodup ∧
+      mapRowsLvl (fun q row => sparseRow m (ternLut mont q) q sel rest row) qs pol = .ok r ∧
+      ∀ t (ht : t < sel.length), (sel[t]).1 < N ∧ (sel[t]).2 = bitAt rbs t ∧
+        (sparseVec N sel rest).getD (sel[t]).1 0 = (if bitAt rbs t = 0 then 1 else -1) := by
+  obtain ⟨rbs, s1, sel, rest, h1, h2, hlen, hperm, _, hm⟩ := ternSparse_ok h
+  have hclip : clipHW hw N = min hw N := by unfold clipHW; split <;> omega
+  rw [hclip] at h1 hlen
+  have hnd := sparseOps_nodup hperm
+  have hnd' : (sel.map Prod.fst).Nodup := by
+    have := hperm.nodup_iff.mpr List.nodup_range
+    exact (List.nodup_append.mp this).1
+  refine ⟨rbs, s1, sel, rest, h1, hlen, hnd', hm, ?_⟩
+  intro t ht
+  have hsign := sparseLoop_signs fuel N _ 0 _ rbs s1 sel rest s' h2 t ht
+  simp only [Nat.zero_mod, Nat.zero_add] at hsign
+  have hmem : (sel[t]).1 ∈ sel.map Prod.fst ++ rest :=
+    List.mem_append_left _ (List.mem_map_of_mem (List.getElem_mem ht))
+  have hpN : (sel[t]).1 < N := List.mem_range.mp (hperm.mem_iff.mp hmem)
+  refine ⟨hpN, hsign, ?_⟩
+  have hop : ((sel[t]).1, some (sel[t]).2) ∈ sparseOps sel rest := by
+    unfold sparseOps
+    exact List.mem_append_left _ (List.mem_map.mpr ⟨sel[t], List.getElem_mem ht, rfl⟩)
+  have hfind := find_self _ _ hnd hop
+  have hget : (sparseVec N sel rest).getD (sel[t]).1 0 = sparseVal sel rest (sel[t]).1 := by
+    unfold sparseVec
+    rw [List.getD_eq_getElem?_getD, List.getElem?_map, List.getElem?_range hpN]
+    rfl
+  rw [hget]
+  unfold sparseVal
+  rw [hfind, hsign]
+
+/-- non-vacuity / instance: H = 3, N = 4, sign byte `0b101`: positions 0, 3, 2 get −1, +1, −1 -/
+example : ternSparse 10 .read false 3 4 [5] [[9, 9, 9, 9]] ([0x05] ++ List.replicate 12 0) =
+    .ok ([[4, 0, 4, 1]], []) := by decide +kernel
+
+/-- **ternary_half_exact (`P = 0.5`).**  The call reads `N/8` coefficient bytes then `N/8` sign
+    bytes and coefficient `i` is the fixed function `ternIndex` of bit `i` of each: distinct
+    coefficients use distinct bits, and of the four bit pairs two give 0, one +1, one −1
+    (`ternIndex_table`) — i.e. over uniform bits each coefficient is 0, +1, −1 with probability
+    exactly 1/2, 1/4, 1/4, independently. -/
+theorem ternary_half_exact (fuel N : Nat) (m : Mode) (mont : Bool) (qs : List Nat) (pol r : Poly) (s s' : Bytes)
+    (h : ternProba fuel m mont SF.half N qs pol s = .ok (r, s')) :
+    ∃ cb sb : Bytes, cb.length = N / 8 ∧ sb.length = N / 8 ∧ s = cb ++ sb ++ s' ∧
+      ternApply m mont qs pol ((List.range N).map fun i => ternIndex (bitAt cb i) (bitAt sb i)) = .ok r ∧
+      (ternVal (ternIndex 0 0) = 0 ∧ ternVal (ternIndex 0 1) = 0 ∧
+       ternVal (ternIndex 1 0) = 1 ∧ ternVal (ternIndex 1 1) = -1) := by
+  obtain ⟨idx, h1, h2⟩ := ternProba_ok h
+  unfold probaIdx at h1
+  rw [if_pos rfl] at h1
+  obtain ⟨cb, sb, hc, hs, hsplit, hidx⟩ := probaHalfIdx_spec h1
+  subst hidx
+  exact ⟨cb, sb, hc, hs, hsplit, h2, ternIndex_table⟩
+
 end Lattigo.C17
 
 #print axioms Lattigo.C17.uniform_range
@@ -452,3 +722,10 @@ end Lattigo.C17
 #print axioms Lattigo.C17.readAndAdd_gauss_mont
 #print axioms Lattigo.C17.prng_key_replays
 #print axioms Lattigo.C17.prng_reads_are_one_stream
+#print axioms Lattigo.C17.atLevel_rows_agree
+#print axioms Lattigo.C17.level_view_ternary
+#print axioms Lattigo.C17.level_view_sparse
+#print axioms Lattigo.C17.level_view_gauss
+#print axioms Lattigo.C17.gauss_no_stale_bytes
+#print axioms Lattigo.C17.sparse_signs_are_stream_bits
+#print axioms Lattigo.C17.ternary_half_exact
